@@ -43,6 +43,23 @@ Section More.
       try (apply beqb_eq in Ev; subst v; reflexivity); destruct (opt_bit e Extracted.opt_NoUnset); reflexivity.
   Qed.
 
+  (** $name inside arithmetic (an ordinary variable): the name itself is handed to Eval, which reads
+      the variable when it needs it; with nounset an unset variable is an error here too *)
+  Theorem param_in_arithmetic fuel e fs name word mode :
+    beqb name s_at = false -> beqb name s_star = false -> mbit mode mArith = true ->
+    is_sp_param name || is_pos_param name = false ->
+    expand_param users (S fuel) e fs name [] word mode =
+    match pstate_of e name with
+    | PUnset => if opt_bit e Extracted.opt_NoUnset then Err (e, XParam name msg_unset)
+                else Ok (e, join_last fs name (mbit mode mQuote))
+    | _ => Ok (e, join_last fs name (mbit mode mQuote))
+    end.
+  Proof.
+    intros Hat Hstar Ha Hr. cbn [expand_param]. rewrite Hat, Hstar, Ha, Hr. unfold pstate_of.
+    destruct (get e name) as [[[n v] set]|x|p|]; [destruct set; [destruct (beqb v []) eqn:Ev|]|..]; cbn; try reflexivity;
+      destruct (opt_bit e Extracted.opt_NoUnset); reflexivity.
+  Qed.
+
   (** $@ : one field per positional parameter (the first one continues the current field), quoted
       or not according to the context; no parameters, or a single empty one, give nothing *)
   Theorem at_fields fuel e fs word mode :
